@@ -89,6 +89,10 @@ func (x *execCtx) evalFunc(f *FuncX, sc *scope) (Value, error) {
 									return coerceLike(u, bv)
 								}
 							}
+							// a NULL argument still has a static type in Postgres
+							if st := x.staticType(b, sc); st != "" {
+								return x.cast(u, st)
+							}
 							break
 						}
 					}
@@ -743,9 +747,20 @@ func (x *execCtx) builtin(f *FuncX, args []Value) (Value, bool, error) {
 		if anyNull() {
 			return nil, true, nil
 		}
-		data, err := castValue(args[0], "bytea")
-		if err != nil {
-			return nil, true, err
+		// pgcrypto has digest(bytea, text) and digest(text, text); the latter hashes the
+		// characters of the text (an untyped literal resolves to text as well)
+		var data Value
+		switch d := args[0].(type) {
+		case Text:
+			data = Bytes([]byte(string(d)))
+		case Unk:
+			data = Bytes([]byte(string(d)))
+		default:
+			var err error
+			data, err = castValue(args[0], "bytea")
+			if err != nil {
+				return nil, true, err
+			}
 		}
 		switch strings.ToLower(argText(1)) {
 		case "sha256":
